@@ -182,15 +182,38 @@ def lower_bound(ctx, fl, st, term: ast.AST, field_bounds: dict = None):
     attribute listed in `field_bounds` with the least value it is ever given)."""
     P, mod = ctx.prog, fl.fi.module
     want, best = sem.cx(term), None
+
+    def least(e):
+        """A value the expression is never below: constants, bounded fields, sums, products with a non-negative factor,
+        and max() (one bounded argument is enough) / min() (all arguments bounded)."""
+        c = P.try_fold(mod, e)
+        if isinstance(c, (int, float)) and not isinstance(c, bool):
+            return c
+        c = (field_bounds or {}).get(sem.cx(e))
+        if c is not None:
+            return c
+        if isinstance(e, ast.BinOp) and isinstance(e.op, (ast.Add, ast.Mult)):
+            x, y = least(e.left), least(e.right)
+            if x is None or y is None:
+                return None
+            if isinstance(e.op, ast.Add):
+                return x + y
+            return x * y if x >= 0 and y >= 0 else None
+        if isinstance(e, ast.Call) and isinstance(e.func, ast.Name) and e.func.id in ("max", "min") and e.args and not e.keywords:
+            vs = [least(a_) for a_ in e.args]
+            if e.func.id == "max":
+                vs = [v for v in vs if v is not None]
+                return max(vs) if vs else None
+            return min(vs) if all(v is not None for v in vs) else None
+        return None
+
     for f in st.facts:
         if f.kind != "cond" or not f.pol or not isinstance(f.xnode, ast.Compare) or len(f.xnode.ops) != 1:
             continue
         op, a, b = f.xnode.ops[0], f.xnode.left, f.xnode.comparators[0]
         if not isinstance(op, (ast.Gt, ast.GtE)) or sem.cx(a) != want:
             continue
-        c = P.try_fold(mod, b)
-        if not (isinstance(c, (int, float)) and not isinstance(c, bool)):
-            c = (field_bounds or {}).get(sem.cx(b))
+        c = least(b)
         if c is None:
             continue
         lb = c + (1 if isinstance(op, ast.Gt) and isinstance(c, int) else 0)
@@ -773,7 +796,8 @@ def vam(ctx):
     fill_tpv, fill_dev = vam_cls.find_method("fullfill_with_tpv_data"), vam_cls.find_method("fullfill_with_device_data")
     if fill_tpv is None or fill_dev is None:
         raise AnalysisError("C10: VAMMessage.fullfill_with_tpv_data / fullfill_with_device_data vanished")
-    elapsed_sites, dev_missing = [], []
+    elapsed_sites, dev_missing, elapsed_cover, expected_elapsed = [], [], [], None
+    seen_kinds: dict = {}
     for i, (m, c) in enumerate(sends):
         if m is not cb:
             continue
@@ -784,7 +808,25 @@ def vam(ctx):
         lb = lower_bound(ctx, fl, st, DIFF, bounds)
         ok = first or (lb is not None and lb >= tmin)
         below = implies(relevant(gs, elapsed_f), ("not", elapsed_f)) is True
-        ctx.ob("C10.vam-min", cb.short(), f"send#{i}:min-interval", ok,
+        # name the site by what triggers it (stable against sites being added or removed before it)
+        encl = [n for n in ast.walk(cb.node) if isinstance(n, ast.If) and any(c is x for b in n.body for x in ast.walk(b))]
+        gtxt = " ".join(ast.unparse(n.test) for n in encl) if encl else " ".join(f_show(x) for x in gs)
+        if first:
+            kind = "first"
+        elif implies(relevant(gs, elapsed_f), elapsed_f) is True:
+            kind = "elapsed"
+        elif "euclidian_distance" in gtxt or "haversine" in gtxt or "'lat'" in gtxt:
+            kind = "position"
+        elif "'speed'" in gtxt:
+            kind = "speed"
+        elif "'track'" in gtxt or "heading" in gtxt:
+            kind = "heading"
+        else:
+            kind = f"#{i}"
+        seen_kinds[kind] = seen_kinds.get(kind, 0) + 1
+        if seen_kinds[kind] > 1:
+            kind = f"{kind}~{seen_kinds[kind]}"
+        ctx.ob("C10.vam-min", cb.short(), f"send:{kind}:min-interval", ok,
                "first VAM after activation" if first else (f"sent only when the report is >= {lb} ms after the last VAM" if ok else (
                    "a dynamics trigger can send a VAM LESS than T_GenVamMin after the previous one "
                    "(the position/speed/heading tests run on the branch where diff_time < T_GenVam and "
@@ -823,11 +865,19 @@ def vam(ctx):
             # a report without a timestamp cannot be timed at all: testing its presence is not an extra condition on the trigger
             has_time = formula(ast.parse(f"'time' in {cb_tpv}", mode="eval").body) if cb_tpv else True
             expected = [gate_f, ("not", none_f), ("not", flag_f), elapsed_f, has_time]
-            if not no_extra_guard(guards(ctx, fl, c, primary=True), expected):
+            expected_elapsed = expected
+            pg = guards(ctx, fl, c, primary=True)
+            elapsed_cover.append(("and", list(pg)) if pg else True)
+            if not no_extra_guard(pg, expected):
                 elapsed_sites.append(c.lineno)
     ctx.ob("C10.gdt", cb.short(), "filled-from-report", not dev_missing,
            "the VAM reflects this position report and the device data" + ("" if not dev_missing else " - device data not filled in before the transmission at " + ", ".join(dev_missing)), cb.loc)
     # max interval: an elapsed-time trigger exists, depends on nothing else, and uses a bound <= T_GenVamMax
+    if not elapsed_sites and elapsed_cover and expected_elapsed is not None:
+        # the trigger may be spread over several transmissions (`elapsed and A` first, plain `elapsed` after it): together
+        # they must be reached whenever the expected condition holds
+        if implies(expected_elapsed, ("or", elapsed_cover)) is True:
+            elapsed_sites.append(0)
     ok = bool(elapsed_sites) and tg_ok and max(tg_vals) <= tmax
     ctx.ob("C10.vam-max", cb.short(), "elapsed-trigger", ok, "a report arriving T_GenVam (<= T_GenVamMax) after the last VAM triggers a VAM", cb.loc)
 
